@@ -247,7 +247,8 @@ def expected_multi_path(cfg, api, test_hex, caller_base="zz_verif_trace_test"):
     fn = caller_base if fn in ("~", "-", None) else unhx_s(fn)
     ext = cfg.get("ext", "~")
     ext = "" if ext in ("~", "-", None) else unhx_s(ext)
-    return d + "/" + fn + ".snap" + ext
+    import posixpath
+    return posixpath.normpath(d) + "/" + fn + ".snap" + ext      # Dir may be spelled non-canonically (def/, ./def, def/../def)
 
 
 def unhx_s(h):
